@@ -67,6 +67,14 @@ CHECKS = {
             "TCR decode tables, phase bound and phase preservation at a clock change, ticks = (residual+states) div divisor / residual mod divisor for "
             "every divisor, one tick == reference (TCNT+1, selected clear, sticky exact flags, one request per enabled event), exact loop count, only "
             "TCNT0/TCSR0 stored, no Bus::write re-entry. Partition-equivalence over whole histories follows by telescoping (stated).", "4 C17"),
+    "C14": ("abstract interpretation of the MES gate with the copy loop generalised at its header (base case, inductive step, exit), byte vectors/strings as terms",
+            "Dispatch on ER0 (104/113/else error); write: argument block at ER1+0/4/8, loop invariant 'vector == bytes buffer[0..i)', one byte read at "
+            "buffer+i and appended per iteration, exit exactly at i == length, same text printed once and sent once, no register/CCR/PC/memory write; "
+            "set_handler: store at 4*v only for 1<=v<=63 with the handler address in the low 24 bits. Byte-exact output follows by induction (stated).", "4 C14"),
+    "C15": ("abstract interpretation of every body reachable from run (panic branch path conditions as BDDs) + obligation census with allow-list + call-graph rules",
+            "Every Assert terminator and panicking call site (441 sites, 402 bodies) is either shown infeasible in all analysed contexts, reported with a "
+            "concrete witness, or allow-listed with a reason; unanalysed bodies with obligations fail closed; cost-function contexts constant and bounded; "
+            "RefCell re-entrancy excluded by reachability. Dev-profile MIR (overflow checks on) covers both build configurations.", "4 C15"),
 }
 
 checks = []
